@@ -353,4 +353,134 @@ theorem noNew_settle {s s' : Store} {m : UInt32} {a b : UInt64} {ep : Bool} {sig
   · exact (noNew_setOrderInStore_existing (v := vb) (by rw [hid, idb]; exact hvb) hset).trans (noNew_delete _ _)
   · exact (noNew_delete _ _).trans (noNew_delete _ _)
 
+/-! ### user settlements (`FillBids` / `FillAsks`): a list of orders, each filled in full -/
+
+theorem getOrderFromStore_id {s : Store} {id : UInt64} {o : Order} (ho : getOrderFromStore s id = some o) :
+    o.id = id := by
+  unfold getOrderFromStore at ho
+  split at ho
+  · cases ho; rfl
+  · cases ho
+
+/-- what `getOrdersToFill` returns: the orders of the listed ids, in that order, each of the wanted type,
+in the market, and not the filler's own (same account AND same spelling) -/
+theorem getOrdersToFill_spec {s : Store} {m : UInt32} {wb : Bool} {f : Bytes} {fu : Bool} :
+    ∀ {ids : List UInt64} {os : List Order}, getOrdersToFill s m wb f fu ids = some os →
+      os.map (·.id) = ids ∧
+      ∀ o ∈ os, getOrderFromStore s o.id = some o ∧ o.isBid = wb ∧ o.market = m ∧ ¬ (o.owner = f ∧ o.ownerUp = fu)
+  | [], os, h => by
+    unfold getOrdersToFill at h
+    cases h
+    exact ⟨rfl, fun _ ho => by cases ho⟩
+  | id :: r, os, h => by
+    unfold getOrdersToFill at h
+    split at h
+    · cases h
+    · next o ho =>
+      split_ifs at h with hc
+      cases hr : getOrdersToFill s m wb f fu r with
+      | none => rw [hr] at h; cases h
+      | some os' =>
+        rw [hr] at h
+        simp only [Option.map_some, Option.some.injEq] at h
+        subst h
+        obtain ⟨hm, hall⟩ := getOrdersToFill_spec hr
+        have hid := getOrderFromStore_id ho
+        refine ⟨by simp [hm, hid], fun o' ho' => ?_⟩
+        rcases List.mem_cons.mp ho' with rfl | ho'
+        · refine ⟨by rw [hid]; exact ho, ?_, ?_, ?_⟩
+          · exact Classical.byContradiction fun hx => hc (Or.inl hx)
+          · exact Classical.byContradiction fun hx => hc (Or.inr (Or.inl hx))
+          · exact fun hx => hc (Or.inr (Or.inr hx))
+        · exact hall o' ho'
+
+theorem fillFold_inv : ∀ (os : List Order) (s : Store), IndexInv s → (os.map (·.id)).Nodup →
+    (∀ o ∈ os, s.get (keyOrder o.id) = some (.order o)) → IndexInv (os.foldl deleteAndDeIndexOrder s)
+  | [], _, h, _, _ => h
+  | x :: r, s, h, hn, hr => by
+    simp only [List.foldl_cons]
+    simp only [List.map_cons, List.nodup_cons] at hn
+    refine fillFold_inv r _ (inv_delete h (hr x List.mem_cons_self)) hn.2 (fun o ho => ?_)
+    rw [get_keyOrder_delete_ne (fun e => hn.1 (List.mem_map.mpr ⟨o, ho, e⟩))]
+    exact hr o (List.mem_cons_of_mem _ ho)
+
+theorem fillFold_touches (os : List Order) (s : Store) :
+    Touches s (os.foldl deleteAndDeIndexOrder s) orderHeads :=
+  foldl_preserves (fun a b => Touches a b orderHeads) (fun a => Touches.refl a _)
+    (fun _ _ _ h1 h2 => h1.trans h2) _ (fun a o => touches_deleteAndDeIndexOrder a o) os s
+
+theorem fillFold_noNew (os : List Order) (s : Store) : NoNew s (os.foldl deleteAndDeIndexOrder s) :=
+  foldl_preserves NoNew NoNew.refl (fun _ _ _ h1 h2 => h1.trans h2) _ (fun a o => noNew_delete a o) os s
+
+/-- whatever is stored after the fold was stored before it, with the same value -/
+theorem fillFold_get_sub : ∀ (os : List Order) (s : Store) (k : Bytes) (v : Val),
+    (os.foldl deleteAndDeIndexOrder s).get k = some v → s.get k = some v
+  | [], _, _, _, h => h
+  | x :: r, s, k, v, h => by
+    have := fillFold_get_sub r _ k v h
+    rw [get_deleteAndDeIndexOrder] at this
+    split_ifs at this
+    exact this
+
+/-- the record of an order that is not in the list is what it was -/
+theorem fillFold_get_other : ∀ (os : List Order) (s : Store) (i : UInt64), i ∉ os.map (·.id) →
+    (os.foldl deleteAndDeIndexOrder s).get (keyOrder i) = s.get (keyOrder i)
+  | [], _, _, _ => rfl
+  | x :: r, s, i, hi => by
+    simp only [List.map_cons, List.mem_cons, not_or] at hi
+    simp only [List.foldl_cons]
+    rw [fillFold_get_other r _ i hi.2, get_keyOrder_delete_ne hi.1]
+
+/-- the record of an order in the list is gone -/
+theorem fillFold_get_listed : ∀ (os : List Order) (s : Store) (i : UInt64), i ∈ os.map (·.id) →
+    (os.foldl deleteAndDeIndexOrder s).get (keyOrder i) = none
+  | [], _, _, hi => by cases hi
+  | x :: r, s, i, hi => by
+    simp only [List.foldl_cons]
+    cases hv : (r.foldl deleteAndDeIndexOrder (deleteAndDeIndexOrder s x)).get (keyOrder i) with
+    | none => rfl
+    | some v =>
+      exfalso
+      have h1 := fillFold_get_sub r _ _ v hv
+      simp only [List.map_cons, List.mem_cons] at hi
+      rcases hi with rfl | hi
+      · rw [get_deleteAndDeIndexOrder, if_pos (Or.inl rfl)] at h1; cases h1
+      · rw [fillFold_get_listed r _ i hi] at hv; cases hv
+
+/-- the shape of an accepted user settlement -/
+theorem fillOrders_eq {s s' : Store} {m : UInt32} {wb : Bool} {f : Bytes} {fu : Bool} {ids : List UInt64}
+    {total : List (Bytes × Nat)} (h : fillOrders s m wb f fu ids total = some s') :
+    ids.Nodup ∧ ids ≠ [] ∧ ∃ os, getOrdersToFill s m wb f fu ids = some os ∧
+      coinsEqual (fillSum wb os) total = true ∧ s' = os.foldl deleteAndDeIndexOrder s := by
+  unfold fillOrders at h
+  split_ifs at h with h0 h1
+  have hn : ids.Nodup :=
+    Classical.byContradiction fun hc => h0 (Or.inr (Or.inr (Or.inr (Or.inr (Or.inl hc)))))
+  have hne : ids ≠ [] := fun hc => h0 (Or.inr (Or.inr (Or.inl hc)))
+  split at h
+  · cases h
+  · next os hos =>
+    split_ifs at h with h2
+    cases h
+    exact ⟨hn, hne, os, hos, by simpa using h2, rfl⟩
+
+theorem inv_fillOrders {s s' : Store} {m : UInt32} {wb : Bool} {f : Bytes} {fu : Bool} {ids : List UInt64}
+    {total : List (Bytes × Nat)} (hinv : IndexInv s) (h : fillOrders s m wb f fu ids total = some s') :
+    IndexInv s' := by
+  obtain ⟨hn, _, os, hos, _, rfl⟩ := fillOrders_eq h
+  obtain ⟨hm, hall⟩ := getOrdersToFill_spec hos
+  have hh := (indexInvF_iff.mp hinv).1
+  exact fillFold_inv os s hinv (by rw [hm]; exact hn)
+    (fun o ho => (getOrderFromStore_eq hh (hall o ho).1).1)
+
+theorem touches_fillOrders {s s' : Store} {m : UInt32} {wb : Bool} {f : Bytes} {fu : Bool} {ids : List UInt64}
+    {total : List (Bytes × Nat)} (h : fillOrders s m wb f fu ids total = some s') : Touches s s' orderHeads := by
+  obtain ⟨_, _, os, _, _, rfl⟩ := fillOrders_eq h
+  exact fillFold_touches os s
+
+theorem noNew_fillOrders {s s' : Store} {m : UInt32} {wb : Bool} {f : Bytes} {fu : Bool} {ids : List UInt64}
+    {total : List (Bytes × Nat)} (h : fillOrders s m wb f fu ids total = some s') : NoNew s s' := by
+  obtain ⟨_, _, os, _, _, rfl⟩ := fillOrders_eq h
+  exact fillFold_noNew os s
+
 end PvProofs.Exrec
